@@ -3,13 +3,15 @@
    device.c by the exact differential R-DEV (props/C08.py): every callback, written byte, time-out, queue,
    exec stack, buffer and Arg is compared after every pass.
 
-   (* OPEN *) C08_refines: the whole-run statement "the observation trace of an action is a derivation of the
-   inductive trace semantics of its script" (DESIGN §5 C08, A.5) is NOT proved; what is proved are the
-   statement-level laws below, from which program order follows statement by statement because the machine
-   only moves from a statement to its successor through [advance] after [fin = true] (by construction of
-   Device.process_action). *)
+   Whole run (second half of the file): C08_refines - every run of a freshly created action through any
+   schedule of passes, device bytes and clock steps is total (never Abort / Hang: the do..while fuel 8 suffices for
+   scripts of at most 8 nesting levels) and its observations are a derivation of the independent trace
+   semantics Spec/ScriptSem.v of the script (complete, failed, or cut = prefix); C08_fresh_start - the same for
+   every reachable action after _rewind_action (F9 repaired); C08_delays, C08_program_order - what the
+   semantics says about every trace.  Proofs in Proofs/ScriptRefine.v, ScriptSim.v, ScriptRun.v. *)
 From Coq Require Import List NArith ZArith Bool.
-From PM Require Import Base.Bytes Base.Outcome Gen.GenConsts Model.ScriptAst Model.Enqueue Model.Script Proofs.ScriptProofs.
+From PM Require Import Base.Bytes Base.Outcome Gen.GenConsts Model.ScriptAst Model.Enqueue Model.Script Spec.ScriptSem
+  Proofs.ScriptProofs Proofs.ScriptRefine Proofs.ScriptSim Proofs.ScriptRun.
 Import ListNotations.
 Local Open Scope Z_scope.
 
@@ -109,3 +111,139 @@ Proof. vm_compute. split; reflexivity. Qed.
 Print Assumptions C08_send_argument. Print Assumptions C08_send_format. Print Assumptions C08_send_once.
 Print Assumptions C08_expect. Print Assumptions C08_delay. Print Assumptions C08_foreach_order.
 Print Assumptions C08_first_interpretation. Print Assumptions C08_ifonoff. Print Assumptions C08_memstr.
+
+(* ================= whole run ================= *)
+
+(* C08_refines.  Hypotheses: what the parser and dev_enqueue_actions guarantee - [bwf]: blocks are not empty and
+   every send format is one hsprintf is defined on (at most one %s, otherwise only %%; C17 / C18); at most 8 nesting
+   levels (the model's do..while fuel); ranged commands carry a plug list; requests with an argument table have a
+   diagnostics callback.  Nothing is assumed about the device state d0, the device's bytes or the regex oracle.
+   [ins] is ANY schedule: before every round the device may deliver bytes, accept any part of the queued bytes, and
+   the clock may move (ScriptSim.env_step); a round is the inner do..while of _process_action followed by advance.
+   Conclusion: the run is total (never Abort / Hang: fuel 8 is enough), and its observations (ScriptSim.step_obs:
+   the model's own EvSent / EvMatched events, a finished delay with its start and end clock, the argument table
+   after a setplugstate / setresult) are a trace of the script in the sense of Spec/ScriptSem.v: complete (Done)
+   when the action completed, failed (Fail) when an ifon/ifoff met a plug of unknown state, a prefix (Cut) while it
+   is still running - which is all an action that later times out in an expect ever produces; the argument table
+   at the end is the one the semantics computes; and ALL bytes the model queued for the device during the run ([raw]:
+   every event of every round, EvSent payloads concatenated) are exactly the send strings of the trace, in order
+   (no other statement queues anything). *)
+Theorem C08_refines : forall (rmatch : text -> text -> option pmatch) (compress : list text -> text) (sc : bool)
+    script ps com client hascb tele hasdiag args d0 store0 ins,
+  bwf script -> (block_levels script <= 8)%nat -> (is_ranged_com com = true -> ps <> None) ->
+  (args <> None -> hasdiag = true) ->
+  let a0 := create_action script com ps client hascb tele hasdiag args in
+  let s0 := mkSst (get_args store0 a0) (model_xm d0) in
+  exists st d a store tr raw,
+    run rmatch compress sc ins d0 a0 store0 [] [] = Ok (st, d, a, store, tr, raw) /\
+    (exists s', exec_script rmatch compress sc (is_ranged_com com) (sd_plugs d0) script ps s0 tr s' (status_of st) /\
+                (st <> Failed -> ss_args s' = get_args store a)) /\
+    sent_of tr = raw_sent raw.
+Proof. exact script_refines. Qed.
+
+(* C08_fresh_start (F9 repaired).  For every action reachable by a run, _rewind_action yields a single context at
+   the first statement of the script with processing = false and no iterator, and every run that follows (on the
+   reconnected device d1: same plug table, anything in its buffers) is again a trace of the WHOLE script from its
+   beginning. *)
+Theorem C08_fresh_start : forall (rmatch : text -> text -> option pmatch) (compress : list text -> text) (sc : bool)
+    script ps com client hascb tele hasdiag args d0 store0 ins1 d a store tr raw,
+  bwf script -> (block_levels script <= 8)%nat -> (is_ranged_com com = true -> ps <> None) ->
+  (args <> None -> hasdiag = true) ->
+  run rmatch compress sc ins1 d0 (create_action script com ps client hascb tele hasdiag args) store0 [] []
+    = Ok (Running, d, a, store, tr, raw) ->
+  (exists e, a_exec (rewind_action a) = [e] /\ c_block e = script /\ c_plugs e = ps /\ c_pos e = O /\
+             c_processing e = false /\ c_plugitr e = None) /\
+  forall d1 ins2, sd_plugs d1 = sd_plugs d0 ->
+  exists st d' a' store' tr2 raw2,
+    run rmatch compress sc ins2 d1 (rewind_action a) store [] [] = Ok (st, d', a', store', tr2, raw2) /\
+    (exists s', exec_script rmatch compress sc (is_ranged_com com) (sd_plugs d0) script ps
+                            (mkSst (get_args store a) (model_xm d1)) tr2 s' (status_of st) /\
+                (st <> Failed -> ss_args s' = get_args store' a')) /\
+    sent_of tr2 = raw_sent raw2.
+Proof. exact rewound_refines. Qed.
+
+(* what the semantics says about EVERY trace (complete, failed or cut): each delay lasted at least its time *)
+Theorem C08_delays : forall (rmatch : text -> text -> option pmatch) (compress : list text -> text) sc ranged devplugs
+    script ps s tr s' st,
+  exec_script rmatch compress sc ranged devplugs script ps s tr s' st -> delays_ok sc tr.
+Proof. intros rmatch compress sc ranged devplugs. exact (proj1 (proj2 (sem_delays rmatch compress sc ranged devplugs))). Qed.
+
+(* ... and a block of plain statements that ran to its end was observed statement by statement, in program order,
+   each exactly once, sends carrying the format with the block's argument substituted *)
+Theorem C08_program_order : forall (rmatch : text -> text -> option pmatch) (compress : list text -> text) sc ranged devplugs
+    b ps s tr s',
+  Forall plain b -> exec_block rmatch compress sc ranged devplugs b ps s tr s' Done ->
+  Forall2 (obs_of compress sc ps) b tr.
+Proof. exact sem_plain_block. Qed.
+
+(* non-vacuity of the whole-run theorems: a concrete run (toy oracle: a pattern matches when it is a literal prefix
+   of the unread bytes).  foreachnode skips the unmapped plug p2, the send is observed once per mapped plug in plug
+   order, the delay of 5 begins at clock 12 and is over at 17, the expect consumes exactly "ok" of "okZ". *)
+Definition toy_match (re s : text) : option pmatch := if is_prefix re s then Some [Some (O, length re)] else None.
+Definition toy_compress (l : list text) : text := concat l.
+Definition toy_dev : sdev :=
+  mkSdev (bslit "d") [mkPlug (bslit "p1") (Some (bslit "n1")); mkPlug (bslit "p2") None; mkPlug (bslit "p3") (Some (bslit "n3"))] [] [] None false.
+Definition toy_script : list stmt := [ForeachNode [Send (bslit "s%s;")]; Delay 5; Expect (bslit "ok")].
+Definition toy_action : action := create_action toy_script 3 None 1 true false true None.
+Definition toy_ins : list input :=
+  [mkInput 10 [] 0; mkInput 10 [] 9; mkInput 10 [] 9; mkInput 10 [] 9; mkInput 10 [] 9; mkInput 12 [] 0;
+   mkInput 17 (bslit "okZ") 0; mkInput 17 [] 0].
+Definition toy_trace : list obs := [OSend (bslit "sp1;"); OSend (bslit "sp3;"); ODelay 5 12 17; OExpect (bslit "ok") (bslit "ok")].
+
+Example C08_refines_example :
+  match run toy_match toy_compress false toy_ins toy_dev toy_action [] [] [] with
+  | Ok (st, d, _, _, tr, raw) => st = Completed /\ sd_from d = bslit "Z" /\ tr = toy_trace /\ raw_sent raw = bslit "sp1;sp3;"
+  | _ => False
+  end.
+Proof. vm_compute. repeat split. Qed.
+
+(* the hypotheses of C08_refines hold for it, so the theorem yields a complete derivation of exactly that trace *)
+Example C08_refines_hyps_example : bwf toy_script /\ (block_levels toy_script <= 8)%nat.
+Proof.
+  split; [|vm_compute; repeat constructor].
+  split; [discriminate|]. constructor; [|repeat constructor]. cbn [swf]. split; [discriminate|]. split; [|exact I].
+  intros a. destruct a; vm_compute; discriminate.
+Qed.
+Example C08_semantics_example :
+  exists s', exec_script toy_match toy_compress false false (sd_plugs toy_dev) toy_script None (mkSst None None) toy_trace s' Done.
+Proof.
+  destruct C08_refines_hyps_example as [Hb Hl].
+  destruct (C08_refines toy_match toy_compress false toy_script None 3 1 true false true None toy_dev [] toy_ins Hb Hl
+              ltac:(discriminate) ltac:(intros K; now contradiction K)) as (st & d & a & store & tr & raw & E & (s' & H & _) & _).
+  pose proof C08_refines_example as X. unfold toy_action in X. rewrite E in X. destruct X as (-> & _ & -> & _).
+  exists s'. exact H.
+Qed.
+Example C08_delays_example : delays_ok false toy_trace /\ ~ delays_ok false [ODelay 5 12 16].
+Proof.
+  split.
+  - destruct C08_semantics_example as (s' & H). exact (C08_delays _ _ _ _ _ _ _ _ _ _ _ H).
+  - intros H. unfold delays_ok in H. inversion H as [|x l K T]; subst. destruct K as [K|K]; [discriminate K|].
+    vm_compute in K. apply K. reflexivity.
+Qed.
+Example C08_program_order_example :
+  forall s tr s', exec_block toy_match toy_compress false false [] [Send (bslit "a%s"); Expect (bslit "ok"); Send (bslit "b")] None s tr s' Done ->
+  exists c, tr = [OSend (bslit "a(null)"); OExpect (bslit "ok") c; OSend (bslit "b")].
+Proof.
+  intros s tr s' H. apply C08_program_order in H; [|repeat constructor].
+  inversion H as [|x1 o1 l1 t1 H1 T1]; subst. inversion T1 as [|x2 o2 l2 t2 H2 T2]; subst.
+  inversion T2 as [|x3 o3 l3 t3 H3 T3]; subst. inversion T3; subst.
+  destruct o1; cbn [obs_of] in H1; try contradiction. destruct o2; cbn [obs_of] in H2; try contradiction.
+  destruct o3; cbn [obs_of] in H3; try contradiction. subst. eexists. reflexivity.
+Qed.
+
+(* rewinding: after the first pass (the first send is queued, processing = true) the connection drops; the rewound
+   action, run on the reconnected device, sends "sp1;" AGAIN and produces the whole trace (before the repair of F9 the
+   retried script skipped its first send) *)
+Example C08_fresh_start_example :
+  match run toy_match toy_compress false [mkInput 10 [] 0] toy_dev toy_action [] [] [] with
+  | Ok (Running, _, a, store, tr1, _) =>
+      tr1 = [OSend (bslit "sp1;")] /\
+      match run toy_match toy_compress false toy_ins toy_dev (rewind_action a) store [] [] with
+      | Ok (st, _, _, _, tr2, _) => st = Completed /\ tr2 = toy_trace
+      | _ => False
+      end
+  | _ => False
+  end.
+Proof. vm_compute. repeat split. Qed.
+
+Print Assumptions C08_refines. Print Assumptions C08_fresh_start. Print Assumptions C08_delays. Print Assumptions C08_program_order.
